@@ -588,7 +588,18 @@ Print Assumptions clean_run.
 Print Assumptions clean_wf_run.
 Print Assumptions clean_reload.
 Print Assumptions clean_expire_sessions.
+Theorem clean_deleted_entry id un session d :
+  clean_entry (RV.Irc.Apply.EDelete id un session (RV.Api.Post.cut_line d)).
+Proof. cbn [clean_entry]. apply clean_cut_line. Qed.
+
+Theorem delete_handler_clean json_quit st sid body pe :
+  RV.Api.Post.delete_handler json_quit st sid body = RV.Api.Post.PPropose pe -> clean (RV.Api.Post.e_data pe).
+Proof. intros H. apply clean_forall. intros c Hc.
+  exact (RV.Api.PostProofs.delete_handler_no_line_end json_quit st sid body pe H c Hc). Qed.
+
 Print Assumptions clean_posted_entry.
 Print Assumptions post_handler_clean.
+Print Assumptions clean_deleted_entry.
+Print Assumptions delete_handler_clean.
 Print Assumptions unclean_entry_unclean_output.
 Print Assumptions CleanState_spec.
